@@ -392,7 +392,7 @@ static const UnFn UNFNS[] = {
 };
 
 // every MPFR function the formula table could apply to the value x (or to 1/x), at precision p
-static void unary_entries(mpfr_srcptr x, mpfr_prec_t p, std::vector<std::string> &out)
+static void unary_entries(mpfr_srcptr x, mpfr_prec_t p, std::vector<std::string> &out, bool special)
 {
     if (!mpfr_number_p(x))
         return;
@@ -409,6 +409,9 @@ static void unary_entries(mpfr_srcptr x, mpfr_prec_t p, std::vector<std::string>
         }
         std::string key = fmt_mpfr(a);
         for (const UnFn &u : UNFNS) {
+            // gamma, lngamma, erf, erfc can take very long on arbitrary arguments: only for the nodes of those classes
+            if (!special && (u.code == 15 || u.code == 107 || u.code == 17 || u.code == 18))
+                continue;
             u.f(r, a, MPFR_RNDN);
             out.push_back("1," + std::to_string(u.code) + "," + key + "=" + fmt_mpfr(r));
         }
@@ -417,7 +420,7 @@ static void unary_entries(mpfr_srcptr x, mpfr_prec_t p, std::vector<std::string>
     mpfr_clear(r);
 }
 
-static void binary_entries(mpfr_srcptr x, mpfr_srcptr y, mpfr_prec_t p, std::vector<std::string> &out)
+static void binary_entries(mpfr_srcptr x, mpfr_srcptr y, mpfr_prec_t p, std::vector<std::string> &out, TypeID t)
 {
     if (!mpfr_number_p(x) || !mpfr_number_p(y))
         return;
@@ -427,12 +430,16 @@ static void binary_entries(mpfr_srcptr x, mpfr_srcptr y, mpfr_prec_t p, std::vec
     for (int sw = 0; sw < 2; sw++) {
         mpfr_srcptr a = sw ? y : x, b = sw ? x : y;
         std::string key = (sw ? ky + ";" + kx : kx + ";" + ky);
-        mpfr_pow(r, a, b, MPFR_RNDN);
-        out.push_back("2,3," + key + "=" + fmt_mpfr(r));
-        mpfr_atan2(r, a, b, MPFR_RNDN);
-        out.push_back("2,4," + key + "=" + fmt_mpfr(r));
-        mpfr_gamma_inc(r, a, b, MPFR_RNDN);
-        out.push_back("2,101," + key + "=" + fmt_mpfr(r));
+        if (t == SYMENGINE_POW || t == SYMENGINE_ATAN2) {
+            mpfr_pow(r, a, b, MPFR_RNDN);
+            out.push_back("2,3," + key + "=" + fmt_mpfr(r));
+            mpfr_atan2(r, a, b, MPFR_RNDN);
+            out.push_back("2,4," + key + "=" + fmt_mpfr(r));
+        }
+        if (t == SYMENGINE_UPPERGAMMA || t == SYMENGINE_LOWERGAMMA) {
+            mpfr_gamma_inc(r, a, b, MPFR_RNDN);
+            out.push_back("2,101," + key + "=" + fmt_mpfr(r));
+        }
     }
     mpfr_clear(r);
 }
@@ -460,10 +467,12 @@ static void walk_entries(const Basic &b, mpfr_prec_t p, std::vector<std::string>
         }
         vals.push_back(std::move(v));
     }
+    bool special = t == SYMENGINE_GAMMA || t == SYMENGINE_LOGGAMMA || t == SYMENGINE_ERF || t == SYMENGINE_ERFC
+                   || t == SYMENGINE_UPPERGAMMA || t == SYMENGINE_LOWERGAMMA;
     for (auto &v : vals)
-        unary_entries(v.get_mpfr_t(), p, out);
+        unary_entries(v.get_mpfr_t(), p, out, special);
     if (vals.size() == 2)
-        binary_entries(vals[0].get_mpfr_t(), vals[1].get_mpfr_t(), p, out);
+        binary_entries(vals[0].get_mpfr_t(), vals[1].get_mpfr_t(), p, out, t);
 }
 
 static std::string oracle_entries(mpfr_prec_t p, const Basic &b)
